@@ -1167,7 +1167,7 @@ fn parse_mapping(mapping: &Mapping) -> crate::Result<Expression> {
                             } else {
                                 boolean = true;
                                 rest.push(Expression::BooleanExpression(
-                                    Box::new(e.clone()),
+                                    Box::new(unmatched_e.clone()),
                                     BoolSym::Equal,
                                     Box::new(Expression::Boolean(*b)),
                                 ))
@@ -1193,7 +1193,7 @@ fn parse_mapping(mapping: &Mapping) -> crate::Result<Expression> {
                                 } else {
                                     number = true;
                                     rest.push(Expression::BooleanExpression(
-                                        Box::new(e.clone()),
+                                        Box::new(unmatched_e.clone()),
                                         BoolSym::Equal,
                                         Box::new(Expression::Integer(i)),
                                     ));
@@ -1214,7 +1214,7 @@ fn parse_mapping(mapping: &Mapping) -> crate::Result<Expression> {
                                 } else {
                                     number = true;
                                     rest.push(Expression::BooleanExpression(
-                                        Box::new(e.clone()),
+                                        Box::new(unmatched_e.clone()),
                                         BoolSym::Equal,
                                         Box::new(Expression::Float(i)),
                                     ))
@@ -1316,7 +1316,7 @@ fn parse_mapping(mapping: &Mapping) -> crate::Result<Expression> {
                         Pattern::Equal(i) => {
                             number = true;
                             rest.push(Expression::BooleanExpression(
-                                Box::new(e.clone()),
+                                Box::new(unmatched_e.clone()),
                                 BoolSym::Equal,
                                 Box::new(Expression::Integer(i)),
                             ))
@@ -1324,7 +1324,7 @@ fn parse_mapping(mapping: &Mapping) -> crate::Result<Expression> {
                         Pattern::GreaterThan(i) => {
                             number = true;
                             rest.push(Expression::BooleanExpression(
-                                Box::new(e.clone()),
+                                Box::new(unmatched_e.clone()),
                                 BoolSym::GreaterThan,
                                 Box::new(Expression::Integer(i)),
                             ))
@@ -1332,7 +1332,7 @@ fn parse_mapping(mapping: &Mapping) -> crate::Result<Expression> {
                         Pattern::GreaterThanOrEqual(i) => {
                             number = true;
                             rest.push(Expression::BooleanExpression(
-                                Box::new(e.clone()),
+                                Box::new(unmatched_e.clone()),
                                 BoolSym::GreaterThanOrEqual,
                                 Box::new(Expression::Integer(i)),
                             ))
@@ -1340,7 +1340,7 @@ fn parse_mapping(mapping: &Mapping) -> crate::Result<Expression> {
                         Pattern::LessThan(i) => {
                             number = true;
                             rest.push(Expression::BooleanExpression(
-                                Box::new(e.clone()),
+                                Box::new(unmatched_e.clone()),
                                 BoolSym::LessThan,
                                 Box::new(Expression::Integer(i)),
                             ))
@@ -1348,7 +1348,7 @@ fn parse_mapping(mapping: &Mapping) -> crate::Result<Expression> {
                         Pattern::LessThanOrEqual(i) => {
                             number = true;
                             rest.push(Expression::BooleanExpression(
-                                Box::new(e.clone()),
+                                Box::new(unmatched_e.clone()),
                                 BoolSym::LessThanOrEqual,
                                 Box::new(Expression::Integer(i)),
                             ))
@@ -1356,7 +1356,7 @@ fn parse_mapping(mapping: &Mapping) -> crate::Result<Expression> {
                         Pattern::FEqual(i) => {
                             number = true;
                             rest.push(Expression::BooleanExpression(
-                                Box::new(e.clone()),
+                                Box::new(unmatched_e.clone()),
                                 BoolSym::Equal,
                                 Box::new(Expression::Float(i)),
                             ))
@@ -1364,7 +1364,7 @@ fn parse_mapping(mapping: &Mapping) -> crate::Result<Expression> {
                         Pattern::FGreaterThan(i) => {
                             number = true;
                             rest.push(Expression::BooleanExpression(
-                                Box::new(e.clone()),
+                                Box::new(unmatched_e.clone()),
                                 BoolSym::GreaterThan,
                                 Box::new(Expression::Float(i)),
                             ))
@@ -1372,7 +1372,7 @@ fn parse_mapping(mapping: &Mapping) -> crate::Result<Expression> {
                         Pattern::FGreaterThanOrEqual(i) => {
                             number = true;
                             rest.push(Expression::BooleanExpression(
-                                Box::new(e.clone()),
+                                Box::new(unmatched_e.clone()),
                                 BoolSym::GreaterThanOrEqual,
                                 Box::new(Expression::Float(i)),
                             ))
@@ -1380,7 +1380,7 @@ fn parse_mapping(mapping: &Mapping) -> crate::Result<Expression> {
                         Pattern::FLessThan(i) => {
                             number = true;
                             rest.push(Expression::BooleanExpression(
-                                Box::new(e.clone()),
+                                Box::new(unmatched_e.clone()),
                                 BoolSym::LessThan,
                                 Box::new(Expression::Float(i)),
                             ))
@@ -1388,7 +1388,7 @@ fn parse_mapping(mapping: &Mapping) -> crate::Result<Expression> {
                         Pattern::FLessThanOrEqual(i) => {
                             number = true;
                             rest.push(Expression::BooleanExpression(
-                                Box::new(e.clone()),
+                                Box::new(unmatched_e.clone()),
                                 BoolSym::LessThanOrEqual,
                                 Box::new(Expression::Float(i)),
                             ))
